@@ -197,6 +197,18 @@ ClaimTermsMonotone ==
 ClaimRemovalOnlyExpired ==
   \A i \in DOMAIN VR.claims \ DOMAIN VR'.claims :
      last'.a = "RemoveExpiredClaims" /\ last'.ok /\ epoch >= VR.claims[i].tstart + VR.claims[i].tmax
+\* C10: "the sector's expiration lies between the claim's minimum and maximum term": a claim is created only for a sector
+\* whose remaining life, at the epoch of the claim, is within the allocation's term bounds, and it starts at that epoch
+ClaimWithinTerms ==
+  \A i \in DOMAIN VR'.claims \ DOMAIN VR.claims :
+     /\ last'.a = "Claim" /\ last'.ok
+     /\ VR'.claims[i].tstart = epoch
+     /\ i \in DOMAIN VR.allocs =>
+          \E k \in 1..Len(last'.sectors) :
+             /\ \E j \in 1..Len(last'.sectors[k].claims) : last'.sectors[k].claims[j].id = i
+             /\ last'.sectors[k].expiry - epoch >= VR.allocs[i].tmin
+             /\ last'.sectors[k].expiry - epoch <= VR.allocs[i].tmax
+             /\ VR'.claims[i].sector = last'.sectors[k].sector
 RejectedIsNoop == (~last'.ok) => VR' = VR
 
 \* ghost: token flow totals and the ids whose allocation has been spent (claimed or refunded)
@@ -207,5 +219,5 @@ GhostNext(g, vr, vr2, l) ==
 
 StateInv(vr, g) == SupplyIsSum(vr) /\ SupplyIsMintedMinusBurnt(vr, g) /\ RegistryHoldsAllocs(vr)
 StepProps == /\ AllowanceExact /\ MintOnlyByGrant /\ AllocFate /\ ClaimsFromAllocs /\ IdsFresh
-             /\ ClaimTermsMonotone /\ ClaimRemovalOnlyExpired /\ RejectedIsNoop
+             /\ ClaimTermsMonotone /\ ClaimRemovalOnlyExpired /\ ClaimWithinTerms /\ RejectedIsNoop
 =============================================================================
